@@ -110,7 +110,7 @@ def emit_obligations(ctx, ph, cls, tag, paths, replay):
         for s in st.new_sizes:
             new_total = new_total + P._t(None, s)
         ctx.add(Obligation('%s/%s/emitted-size-equals-size()#%d' % (fn, tag, i), pc, new_total == old, 'INT', func=fn,
-                           kind='post', meta={'replay': replay, 'props': ['C09', 'C10', 'C03'],
+                           kind='post', meta={'replay': replay, 'props': ['C09', 'C10', 'C03', 'C08'],
                                               'what': '%s: bytes emitted for %s differ from its size()' % (ph.pass_name, tag),
                                               'key': '%s:%s:size' % (ph.pass_name, tag)}))
         ok_line = all(isinstance(o, I.SObj) and P.same_line_obj(o.fields.get('line'), st.item.fields.get('line')) for o in st.appended)
